@@ -169,10 +169,10 @@ PROPS = {
     ),
     'C10': dict(
         title='repeated occurrences of a singular field merge as protobuf prescribes',
-        modules=['Pbc.Props.C11', 'Pbc.Props.C10'],
+        modules=['Pbc.Props.C11', 'Pbc.Props.C10', 'Pbc.Props.C06m'],
         theorems=['Pbc.Props.C11.only_required_fields_matter',
                   'Pbc.Props.C10.last_wins', 'Pbc.Props.C10.last_of_two_wins', 'Pbc.Props.C10.repeated_appends', 'Pbc.Props.C10.oneof_last_member_wins',
-                  'Pbc.Props.C10.stale_occurrence_irrelevant'],
+                  'Pbc.Props.C10.stale_occurrence_irrelevant', 'Pbc.Props.C06.mergeFields_inv', 'Pbc.Props.C06.merge_pfn'],
         refine=PARSE_LEAVES,
         cases=[('merge', 400, 6000, [])],
         oracle='c10', ref=True,
@@ -191,15 +191,16 @@ PROPS = {
     'C06': dict(
         title='whatever the parser accepts is well-formed, re-serialisable and stable',
         modules=['Pbc.Props.C02', 'Pbc.Lemmas.Elem', 'Pbc.Props.C01', 'Pbc.Props.C01b', 'Pbc.Props.C01c', 'Pbc.Props.C01d',
-                 'Pbc.Props.C06a', 'Pbc.Props.C06b', 'Pbc.Props.C06c'],
+                 'Pbc.Props.C06a', 'Pbc.Props.C06b', 'Pbc.Props.C06m', 'Pbc.Props.C06c'],
         theorems=['Pbc.Props.C02.packMsg_length', 'Pbc.Props.C02.chunksMsg_flatten', 'Pbc.Props.C02.chunks_total',
                   'Pbc.Lemmas.scanKey_keyBytes', 'Pbc.Lemmas.scanLen_lenPrefixed',
                   'Pbc.Props.C01.packMsg_recs', 'Pbc.Props.C01.pack_scans',
                   'Pbc.Props.C01.roundtrip_partial',
                   'Pbc.Props.C01.roundtrip', 'Pbc.Props.C01.unpack_pack_canonical',
-                  # what the parser returns on ANY accepted input is canonical, hence stable (schemas without singular message fields)
+                  # what the parser returns on ANY accepted input is canonical, hence stable (merges included)
                   'Pbc.Props.C06.delimit_take', 'Pbc.Props.C06.scanLoop_acc', 'Pbc.Props.C06.parseRequired_shape',
                   'Pbc.Props.C06.step_field', 'Pbc.Props.C06.step_oneof', 'Pbc.Props.C06.parseAll_inv',
+                  'Pbc.Props.C06.mergeFields_inv', 'Pbc.Props.C06.merge_pfn', 'Pbc.Props.C06.parsed_pfn', 'Pbc.Props.C06.pfn_canon',
                   'Pbc.Props.C06.parsed_canon', 'Pbc.Props.C06.reparse_partial', 'Pbc.Props.C06.stable_partial',
                   'Pbc.Props.C06.exS_good', 'Pbc.Props.C06.exOut_canon', 'Pbc.Props.C06.exOut_fits'],
         refine=PARSE_LEAVES + PACK_LEAVES + SIZE_LEAVES,
